@@ -203,6 +203,11 @@ def main():
             if r.get("known_finding"): known_hits.setdefault(r["known_finding"], []).append(r)
             elif r["status"] == "refuted": violations.append(r)
         unknown = [r for r in unknown if not r.get("known_finding")]
+        # "needs contract" (a loop-carried local the invariant does not describe): undecided by the deductive part; with a harness the run continues as bounded fallback
+        nc = [r for r in unknown if (r.get("meta") or {}).get("needs_contract")]
+        if nc and harnesses:
+            unknown = [r for r in unknown if r not in nc]
+            for u_ in sorted({r["unit"] for r in nc}): fallback_units.append({"unit": u_, "reason": next(r["detail"] for r in nc if r["unit"] == u_)[:300], "obligations": sorted({r["name"] for r in nc if r["unit"] == u_})[:8]})
 
         # ---------------- bounded harness results
         hviol = []; hb = {"evaluations": 0, "distinct_nontrivial": 0, "parts": []}
